@@ -223,7 +223,17 @@ func (c19Engine) Gen(g *Gen) {
 				continue
 			}
 			used[k] = true
-			in.M = append(in.M, kvB{toB(k), toB(pick(g.Rng, pool))})
+			v := pick(g.Rng, pool)
+			// maps built through the API need not be printable: ',' and '=' anywhere
+			switch g.Rng.Intn(8) {
+			case 0:
+				v += "," + pick(g.Rng, pool)
+			case 1:
+				k += ","
+			case 2:
+				k += "=" + pick(g.Rng, pool[:6])
+			}
+			in.M = append(in.M, kvB{toB(k), toB(v)})
 		}
 		for j := g.Rng.Intn(5); j >= 0; j-- {
 			in.Ops = append(in.Ops, clOp{g.Rng.Intn(2), toB(pick(g.Rng, pool[:6])), toB(pick(g.Rng, pool))})
@@ -282,6 +292,15 @@ func (c19Engine) Run(raw json.RawMessage) (interface{}, error) {
 		} else {
 			o.Got = strconv.FormatInt(int64(v), 10)
 		}
+		// the getter with a default is a getter too: the value set wins over any default, an unset key gives it
+		for _, def := range []int{0, 1, -1, int(in.I) + 1} {
+			if v, err := p.IntDefault("k", def); err != nil || int64(v) != in.I {
+				o.Got = fmt.Sprintf("IntDefault(k,%d) after SetInt(%d) = %d (%v)", def, in.I, v, err)
+			}
+			if v, err := p.IntDefault("unset", def); err != nil || v != def {
+				o.Got = fmt.Sprintf("IntDefault(unset,%d) = %d (%v)", def, v, err)
+			}
+		}
 	case "uint":
 		p := pgs.Parameters{}
 		p.SetUint("k", uint(in.U))
@@ -291,11 +310,27 @@ func (c19Engine) Run(raw json.RawMessage) (interface{}, error) {
 		} else {
 			o.Got = strconv.FormatUint(uint64(v), 10)
 		}
+		for _, def := range []uint{0, 1, uint(in.U) + 1} {
+			if v, err := p.UintDefault("k", def); err != nil || uint64(v) != in.U {
+				o.Got = fmt.Sprintf("UintDefault(k,%d) after SetUint(%d) = %d (%v)", def, in.U, v, err)
+			}
+			if v, err := p.UintDefault("unset", def); err != nil || v != def {
+				o.Got = fmt.Sprintf("UintDefault(unset,%d) = %d (%v)", def, v, err)
+			}
+		}
 	case "bool":
 		p := pgs.Parameters{}
 		p.SetBool("k", in.Bv)
 		o.Stored = toB(p.Str("k"))
 		o.Got = boolStr(p.Bool("k"))
+		for _, def := range []bool{false, true} {
+			if v, err := p.BoolDefault("k", def); err != nil || v != in.Bv {
+				o.Got = fmt.Sprintf("BoolDefault(k,%v) after SetBool(%v) = %v (%v)", def, in.Bv, v, err)
+			}
+			if v, err := p.BoolDefault("unset", def); err != nil || v != def {
+				o.Got = fmt.Sprintf("BoolDefault(unset,%v) = %v (%v)", def, v, err)
+			}
+		}
 	case "getint":
 		p := pgs.Parameters{"k": in.S.String()}
 		if v, err := p.Int("k"); err != nil {
@@ -338,12 +373,28 @@ func (c19Engine) Run(raw json.RawMessage) (interface{}, error) {
 			if err != nil || !(math.Float64bits(got) == bits || (math.IsNaN(f) && math.IsNaN(got))) {
 				o.Got = fmt.Sprintf("float %v -> %q -> %v (%v)", f, p.Str("k"), got, err)
 			}
+			for _, def := range []float64{0, 1, math.NaN(), -f} {
+				if v, err := p.FloatDefault("k", def); err != nil || !(math.Float64bits(v) == bits || (math.IsNaN(f) && math.IsNaN(v))) {
+					o.Got = fmt.Sprintf("FloatDefault(k,%v) after SetFloat(%v) = %v (%v)", def, f, v, err)
+				}
+				if v, err := p.FloatDefault("unset", def); err != nil || !(v == def || (math.IsNaN(def) && math.IsNaN(v))) {
+					o.Got = fmt.Sprintf("FloatDefault(unset,%v) = %v (%v)", def, v, err)
+				}
+			}
 		case "duration":
 			ns, _ := strconv.ParseInt(x["ns"].(string), 10, 64)
 			p.SetDuration("k", time.Duration(ns))
 			got, err := p.Duration("k")
 			if err != nil || int64(got) != ns {
 				o.Got = fmt.Sprintf("duration %d -> %q -> %d (%v)", ns, p.Str("k"), int64(got), err)
+			}
+			for _, def := range []time.Duration{0, 1, time.Second, time.Duration(ns) + 1} {
+				if v, err := p.DurationDefault("k", def); err != nil || int64(v) != ns {
+					o.Got = fmt.Sprintf("DurationDefault(k,%d) after SetDuration(%d) = %d (%v)", int64(def), ns, int64(v), err)
+				}
+				if v, err := p.DurationDefault("unset", def); err != nil || v != def {
+					o.Got = fmt.Sprintf("DurationDefault(unset,%d) = %d (%v)", int64(def), int64(v), err)
+				}
 			}
 		}
 	default:
